@@ -460,7 +460,11 @@ def _run_property(pid, tier, prop, seed, workdir, evid_path, t0):
             if not os.path.exists(sp):
                 exh = False
                 continue
-            s = json.load(open(sp))
+            try:
+                s = json.load(open(sp))
+            except ValueError:  # worker was stopped (another worker found a failure) while writing
+                exh = False
+                continue
             ev += s['evaluations']
             nt += s['nontrivial']
             exh = exh and s.get('exhaustive', False)
